@@ -11,6 +11,7 @@
  */
 #include "vp.h"
 #include "c20_printf.h"
+#include "c20_cases.h"
 #ifndef VP_NATIVE
 void *malloc(__CPROVER_size_t);
 #endif
@@ -23,7 +24,7 @@ void *malloc(__CPROVER_size_t);
 #endif
 
 struct S_struct_frg__va_struct VS;     /* harness-owned: overflow_arg_area is visible at every hook */
-uint8_t *c20_fmt;                       /* exact-size format buffer */
+uint8_t *c20_fmt; uint64_t c20_fmt_size;  /* exact-size format buffer */
 uint64_t *c20_slots;                    /* exact-size array of variadic slots */
 int c20_declared, c20_judge;            /* declared(fmt); c20_judge (concrete) = 0: not judged in this entry */
 int c20_nconv, c20_nout, c20_stop;
@@ -43,6 +44,20 @@ int vp_stopped;
 void frg_panic(uint8_t *m) { (void)m; c20_check_slots(); VP_WITNESS(0, "stop through the assertion hook"); vp_stopped = 1; VP_STOP(); }
 void ir2c_trap_hook(void) { c20_check_slots(); vp_stopped = 1; VP_STOP(); }
 void vp_out(uint8_t c) { (void)c; c20_nout++; c20_check_slots(); }
+/* a run of literal text is handed to the sink as (pointer, length): the sink will read it, so it must lie inside the format buffer.
+ * After a violation the path is abandoned (a parser that has left its buffer wanders through unconstrained memory: the single-path
+ * exploration of that is huge and adds nothing). */
+void vp_text(uint8_t *p, uint64_t n) {
+	c20_nout++; c20_check_slots();
+#ifdef VP_NATIVE
+	int inside = (uintptr_t)p >= (uintptr_t)c20_fmt && n < c20_fmt_size && (uintptr_t)p - (uintptr_t)c20_fmt < c20_fmt_size - n;
+#else
+	int inside = __CPROVER_same_object(p, c20_fmt) && n < c20_fmt_size && (uint64_t)__CPROVER_POINTER_OFFSET(p) < c20_fmt_size - n;
+#endif
+	/* [p, p+n] inside: the run itself (read by the sink) and the byte after it (printf_format reads it next: the '%' or NUL that ended the run) */
+	if(!inside) { VP_ASSERT(0, "literal text handed to the sink, or the byte that ends it, lies outside the format buffer"); VP_STOP(); }
+	VP_NATIVE_ONLY(VP_OBSERVE(p - c20_fmt)); VP_OBSERVE(n);
+}
 void vp_conv(uint8_t t, uint32_t szmod, uint64_t v) {
 	c20_nconv++; c20_check_slots();
 	VP_OBSERVE(t); VP_OBSERVE(szmod); VP_OBSERVE(v);
@@ -91,7 +106,7 @@ static int c20_scan(const uint8_t *f, int n) {   /* f[n] == 0 */
 }
 
 static void c20_setup(int len, int nslot) {
-	c20_fmt = (uint8_t *)malloc(len + 1);
+	c20_fmt = (uint8_t *)malloc(len + 1); c20_fmt_size = (uint64_t)len + 1;
 	c20_slots = (uint64_t *)malloc(8 * nslot);
 	for(int i = 0; i < nslot; i++) VP_INPUT(c20_slots[i]);
 	VS.f0.e[0].f0 = 48; VS.f0.e[0].f1 = 304;      /* gp_offset, fp_offset: register save areas exhausted */
@@ -109,7 +124,7 @@ static void c20_run(void) {
 	VP_WITNESS(r == 0, "printf_format returned the agent's error");
 }
 
-/* byte classes used to split the exhaustive queries across cores (-DC0=k / -DC1=k constrain byte 0 / byte 1) */
+/* byte classes (for -DC0=k: constrain byte 0 to one class) */
 static int c20_class(uint8_t c) {
 	return c == 0 ? 0 : c == '%' ? 1 : (c >= '1' && c <= '9') ? 2 : (c == '0' || c == '-' || c == '+' || c == ' ' || c == '#' || c == '\'') ? 3
 	     : (c == '*' || c == '.' || c == '$') ? 4 : (c == 'l' || c == 'h' || c == 'z' || c == 'L' || c == 't' || c == 'j') ? 5
@@ -121,11 +136,8 @@ void harness_bytes(void) {
 	c20_setup(L, NSLOT);
 	for(int i = 0; i < L; i++) VP_INPUT(c20_fmt[i]);
 	c20_fmt[L] = 0;
-#ifdef C0
-	if(C0 == 0) c20_fmt[0] = 0; else if(C0 == 1) c20_fmt[0] = '%'; else VP_ASSUME(c20_class(c20_fmt[0]) == C0);
-#endif
-#ifdef C1
-	if(C1 == 0) c20_fmt[1] = 0; else if(C1 == 1) c20_fmt[1] = '%'; else VP_ASSUME(c20_class(c20_fmt[1]) == C1);
+#ifdef C0      /* split of one length across queries: 1: byte 0 is '%' (concrete), 8: byte 0 is any byte except '%' and NUL; else: class C0 */
+	if(C0 == 1) c20_fmt[0] = '%'; else if(C0 == 8) VP_ASSUME(c20_fmt[0] != '%' && c20_fmt[0] != 0); else VP_ASSUME(c20_class(c20_fmt[0]) == C0);
 #endif
 	c20_declared = c20_scan(c20_fmt, L); c20_judge = 1;
 	c20_run();
@@ -185,6 +197,21 @@ void harness_positional(void) {
 	c20_run();
 }
 
+/* (4) concrete well-formed (and a few malformed) formats of realistic length, EXACTLY declared(fmt) slots (single path: with a
+ * concrete format everything folds) */
+#ifndef CASE
+#define CASE 0
+#endif
+void harness_concrete(void) {
+	const char *f = c20_printf_cases[CASE];      /* table generated from props/C20.py (c20_cases.h) */
+	int len = 0; while(f[len]) len++;
+	int decl = c20_scan((const uint8_t *)f, len);
+	c20_setup(len, decl);
+	for(int i = 0; i <= len; i++) c20_fmt[i] = (uint8_t)f[i];
+	c20_declared = decl; c20_judge = 1;
+	c20_run();
+}
+
 /* translator validation: formats drawn from the directive alphabet, in PADDED buffers (reads past the intended end are
  * benign and identical in both builds; this entry compares the two builds, it does not judge the property) */
 void harness_validate(void) {
@@ -193,8 +220,9 @@ void harness_validate(void) {
 	int n; VP_INPUT_RANGE(n, 0, 10);
 	for(int i = 0; i < n; i++) { int k; VP_INPUT_RANGE(k, 0, (int)sizeof alpha - 2); fbuf[i] = (uint8_t)alpha[k]; }
 	fbuf[n] = 0;
+	for(int i = n + 1; i < 64; i++) fbuf[i] = (uint8_t)"%d\0"[(i - n - 1) % 3];   /* padding in which any over-reading scanner stops at once, identically in both builds */
 	for(int i = 0; i < 64; i++) sl[i] = 0x0101010101010101ULL * (uint64_t)(i + 1);
-	c20_fmt = fbuf; c20_slots = sl;
+	c20_fmt = fbuf; c20_fmt_size = 64; c20_slots = sl;
 	VS.f0.e[0].f0 = 48; VS.f0.e[0].f1 = 304; VS.f0.e[0].f2 = (uint8_t *)sl; VS.f0.e[0].f3 = 0; VS.f1 = al; VS.f2 = 0;
 	c20_judge = 0;
 	c20_run();
